@@ -39,6 +39,29 @@ def run_one(program, faults=(), observe=None, limits=None):
         roots.append(coro)
     ctx.outcome = None
     ctx.runaway = None
+    if program.get('_prior'):
+        # the scenario's objects (locks, queues, flags ...) have been used before, by an earlier simulation on this thread: the
+        # same roots are run to their end in a separate usim.run() first; only the second simulation is observed and judged
+        pctx = Ctx((), limits or (1000 + 200 * nops, 5000 + 500 * nops), None)
+        pctx.payloads = {}
+        pinterp = Interp(pctx, {'start': program.get('start', 0), 'objs': {}, 'roots': program['roots']})
+        pctx.objs = ctx.objs
+        pctx.interp = pinterp
+        proots = [pinterp.activity(name, script) for name, script in program['roots']]
+        CURRENT.append(pctx)
+        try:
+            with ExecTimer():
+                usim.run(*proots, start=program.get('start', 0))
+        except BaseException as e:
+            ctx.findings.append(('prior-run-failed', repr(e)))
+        finally:
+            CURRENT.pop()
+        pctx.closed = True
+        for coro in list(reversed(pinterp.coros)) + list(pctx.keep):
+            try:
+                coro.close()
+            except BaseException:
+                pass
     CURRENT.append(ctx)
     import usim._core.loop as _loopmod
     import usim._core.waitq as _waitq
@@ -52,7 +75,14 @@ def run_one(program, faults=(), observe=None, limits=None):
         if program.get('till') is not None:
             kw['till'] = interp.T(program['till'])
         with ExecTimer():
-            usim.run(*roots, start=program.get('start', 0), **kw)
+            if program.get('_in_handler'):
+                # the whole simulation runs while its caller is handling an exception (run() called from an except block)
+                try:
+                    raise LookupError('the caller of run() is handling this')
+                except LookupError:
+                    usim.run(*roots, start=program.get('start', 0), **kw)
+            else:
+                usim.run(*roots, start=program.get('start', 0), **kw)
     except Runaway as r:
         ctx.runaway = r
         ctx.findings.append((r.kind, r.detail))
